@@ -139,6 +139,12 @@ class Script:
             lines += ['function fn0(a):', '    return a', 'endfunction']
         return '\n'.join(lines + body) + '\n'
 
+    def text_plain(self):
+        """the same history without the snapshot calls, returning every variable: for the WHOLE-interpreter correspondence"""
+        src = self.text()
+        body = [ln for ln in src.split('\n') if ln and ln != 'snap()']
+        return '\n'.join(body + ['return arrayNew(' + ', '.join(f'x{k}' for k in range(len(self.ops))) + ')']) + '\n'
+
 
 DATE_US = 1577923200000000     # 2020-01-02T00:00:00Z
 
@@ -678,6 +684,37 @@ def run(tier):
         if len(bad) > 10:
             chk.corr_fail.append({'class': 'model-differs', 'more': len(bad) - 10})
 
+    # ---- correspondence 2: the same histories through the WHOLE interpreter model (Model/Interp.v exec + Model/LibAll.v libfull,
+    #      i.e. LibSeq lifted to the interpreter's world): statement execution, call wrapper, lifting and heap split all in the loop
+    interp_n = interp_declined = 0
+    if model_ok and chk.model_ready(['Model/Run.vo']):
+        from . import interp as ip
+        cand = [i for i in range(len(seqs)) if in_model(i) and not any('special' in o and o['special'] != 'fn' for o in seqs[i][0].ops)]
+        budget2 = 400 if not thorough else 4000
+        if len(cand) > budget2:
+            cand = sorted(r.sample(cand, budget2))
+        cases2 = [{'text': seqs[i][0].text_plain(), 'globals': {k: ['str', v] for k, v in seqs[i][0].globals.items()}, 'max': 5000,
+                   'want_model': True} for i in cand]
+        impl2 = core.run_impl('run_script', cases2)
+        terms2, used2 = [], []
+        for c, res in zip(cases2, impl2):
+            if 'model' not in res or 'host' in res:
+                continue
+            try:
+                terms2.append(ip.run_term(c, res, res['model'], fuel=4000))
+                used2.append(c)
+            except (ip.Unencodable, ValueError):
+                pass
+        codes2, errors2 = core.coq_codes('c15i', ip.IMPORTS, terms2, shard=40)
+        interp_n = len(used2)
+        for k, log in errors2:
+            chk.corr_fail.append({'class': 'case-file-did-not-evaluate', 'shard': k, 'log': log[-800:]})
+        interp_declined = sum(1 for c in codes2 if c == 2)
+        for j, c in enumerate(codes2):
+            if c in (0, 3) and len(chk.corr_fail) < 12:
+                chk.corr_fail.append({'class': 'interpreter-model-differs' if c == 0 else 'interpreter-model-out-of-fuel',
+                                      'source': used2[j]['text'], 'globals': used2[j]['globals']})
+
     chk.coverage = {
         'evaluations': totals['calls'],
         'distinct_nontrivial': nontrivial,
@@ -689,7 +726,7 @@ def run(tier):
         'exhaustive': True,
         'exhaustive_part': 'every index function x length 0..3 x index -2..len+2 (+0.5); every function x every parameter position x '
                            'a value of every type, missing and surplus arguments; regexEscape/urlEncode* on every code point < 0x180',
-        'correspondence_cases': corr_n,
+        'correspondence_cases': corr_n, 'interpreter_correspondence_cases': interp_n, 'interpreter_model_declined': interp_declined,
         'samples': [{'src': payload[i]['src'][:600]} for i in (0, len(seqs) // 2, len(seqs) - 1)],
     }
     return chk.finish(TRUSTED)
